@@ -1,63 +1,58 @@
-//! C17 executor.  `spawn T K`: T threads start together (barrier); each creates K treap nodes and
-//! records their priorities, then runs a treap program on a treap it owns.  Afterwards ONE fresh
-//! thread creates T*K nodes (the stream a single thread sees) and every program is re-run alone.
-//! Output: `S <solo...> ; L <thread 0 ...> ; L <thread 1 ...> ; ... ; E <0|1>`.
-use rlib_treap::{Treap, TreapItem, TreapItemSized, TreapNode};
+//! C17 executor.
+//!
+//! `run TOPO T K P KIND UNEVEN`: logical threads are started according to the topology TOPO; each
+//! creates K treap nodes by direct `TreapNode::new` calls and then runs a treap program of P
+//! insertions (prog.rs) on a treap it owns, recording the priority of EVERY node it creates, whatever
+//! the constructor path (`TreapNode::new`, `Treap::insert_at`, `Treap::from_item`).  Afterwards ONE
+//! fresh thread of a fresh process creates as many nodes as all threads together (the stream a single
+//! thread sees) and every program is re-run alone.
+//! Output: `S <solo...> ; L <thread 0 ...> ; L <thread 1 ...> ; ... ; E <0|1>`
+//! E = every program gave the results it gives alone AND every integrity check inside the programs
+//! held (shadow sequence, heap order, aggregates, recorded priority == priority stored in the node).
+//!
+//! topologies: spawn   T threads released by one barrier
+//!             main    like spawn, but logical thread 0 is the process's main thread
+//!             nested  T workers; each, after K/2 draws, spawns a child that does a whole job while the worker goes on (2T lists)
+//!             stagger thread i+1 starts after thread i has exited
+//!             handoff T threads build the first half of their treap and exit; T other threads receive the
+//!                     treaps (they cross a thread boundary) and finish the programs (2T lists)
+//! UNEVEN = 1: thread i draws (i+1)*K nodes.  KIND 0..3 = program kind for every thread, 4 = thread i runs kind i mod 4.
+//! `spawn T K` = `run spawn T K min(K,60) 0 0`.
+mod prog;
+use prog::{job, job_first, job_second, solo_draws, Report, KINDS};
 use std::sync::{Arc, Barrier};
 
-#[derive(Clone, Debug)]
-struct It {
-    v: i64,
-    size: usize,
-    sum: i64,
+#[derive(Clone, Copy)]
+struct Par {
+    nt: usize,
+    k: usize,
+    p: usize,
+    kind: usize,
+    uneven: bool,
 }
-impl It {
-    fn new(v: i64) -> Self {
-        It { v, size: 1, sum: v }
+
+impl Par {
+    /// direct draws of program/thread `pid` (children of the nested topology have pid >= nt)
+    fn k_of(&self, pid: usize) -> usize {
+        if self.uneven && pid < self.nt {
+            (pid + 1) * self.k
+        } else {
+            self.k
+        }
     }
-}
-impl TreapItem for It {
-    fn update(&mut self, l: Option<&Self>, r: Option<&Self>) {
-        self.size = 1 + l.map_or(0, |x| x.size) + r.map_or(0, |x| x.size);
-        self.sum = self.v + l.map_or(0, |x| x.sum) + r.map_or(0, |x| x.sum);
+    fn kind_of(&self, pid: usize) -> usize {
+        if self.kind >= KINDS {
+            pid % KINDS
+        } else {
+            self.kind
+        }
     }
-}
-impl TreapItemSized for It {
-    fn size(&self) -> usize {
-        self.size
+    fn whole(&self, pid: usize) -> Report {
+        job(pid, self.k_of(pid), self.p, self.kind_of(pid))
     }
 }
 
-/// a deterministic treap program: results must not depend on the priorities drawn
-fn program(tid: usize, k: usize) -> Vec<i64> {
-    let mut t: Treap<It> = Treap::new();
-    let mut out = Vec::new();
-    for i in 0..k {
-        let pos = (i * 7 + tid * 3) % (i + 1);
-        t.insert_at(pos, It::new((i as i64) * 10 + tid as i64));
-    }
-    out.push(t.size() as i64);
-    out.push(t.root().map_or(0, |r| r.sum));
-    let mut n = k;
-    for j in 0..k / 3 {
-        let pos = (j * 5 + tid) % n;
-        out.push(t.remove_at(pos).v);
-        n -= 1;
-    }
-    let (a, b) = t.split_at(n / 2);
-    let mut a = a;
-    let mut b = b;
-    out.push(a.size() as i64);
-    out.extend(b.collect().iter().map(|x| x.v));
-    out.extend(a.collect().iter().map(|x| x.v));
-    out
-}
-
-fn draws(k: usize) -> Vec<u32> {
-    (0..k).map(|i| TreapNode::new(i).priority).collect()
-}
-
-fn fmt_u32(v: &[u32]) -> String {
+fn fmt_prios(v: &[u64]) -> String {
     v.iter().map(|x| x.to_string()).collect::<Vec<_>>().join(" ")
 }
 
@@ -71,69 +66,158 @@ fn child(args: &[String]) -> String {
     String::from_utf8(out.stdout).unwrap().trim().to_string()
 }
 
+fn conc(topo: &str, par: Par) -> Vec<Report> {
+    let nt = par.nt;
+    match topo {
+        "spawn" | "main" => {
+            let barrier = Arc::new(Barrier::new(nt));
+            let first = if topo == "main" { 1 } else { 0 };
+            let hs: Vec<_> = (first..nt)
+                .map(|tid| {
+                    let b = barrier.clone();
+                    std::thread::spawn(move || {
+                        b.wait();
+                        par.whole(tid)
+                    })
+                })
+                .collect();
+            let mut reps = Vec::new();
+            if topo == "main" {
+                barrier.wait();
+                reps.push(par.whole(0));
+            }
+            reps.extend(hs.into_iter().map(|h| h.join().unwrap()));
+            reps
+        }
+        "nested" => {
+            let barrier = Arc::new(Barrier::new(nt));
+            let hs: Vec<_> = (0..nt)
+                .map(|tid| {
+                    let b = barrier.clone();
+                    std::thread::spawn(move || {
+                        b.wait();
+                        let k = par.k_of(tid);
+                        let mut head = prog::draws(k / 2);
+                        // the child starts while its parent is in the middle of its own stream
+                        let c = std::thread::spawn(move || par.whole(nt + tid));
+                        let mut me = job(tid, k - k / 2, par.p, par.kind_of(tid));
+                        head.extend_from_slice(&me.prios);
+                        me.prios = head;
+                        (me, c.join().unwrap())
+                    })
+                })
+                .collect();
+            let mut ws = Vec::new();
+            let mut cs = Vec::new();
+            for h in hs {
+                let (w, c) = h.join().unwrap();
+                ws.push(w);
+                cs.push(c);
+            }
+            ws.extend(cs);
+            ws
+        }
+        "stagger" => (0..nt).map(|tid| std::thread::spawn(move || par.whole(tid)).join().unwrap()).collect(),
+        "handoff" => {
+            let barrier = Arc::new(Barrier::new(nt));
+            let hs: Vec<_> = (0..nt)
+                .map(|tid| {
+                    let b = barrier.clone();
+                    std::thread::spawn(move || {
+                        b.wait();
+                        job_first(tid, par.k_of(tid), par.p, par.kind_of(tid))
+                    })
+                })
+                .collect();
+            // the builders have exited (their thread-locals are gone) before anybody continues
+            let (mut reps, runs): (Vec<_>, Vec<_>) = hs.into_iter().map(|h| h.join().unwrap()).unzip();
+            let barrier = Arc::new(Barrier::new(nt));
+            let hs: Vec<_> = runs
+                .into_iter()
+                .enumerate()
+                .map(|(tid, r)| {
+                    let b = barrier.clone();
+                    std::thread::spawn(move || {
+                        b.wait();
+                        job_second(tid, par.k_of(tid), r)
+                    })
+                })
+                .collect();
+            reps.extend(hs.into_iter().map(|h| h.join().unwrap()));
+            reps
+        }
+        _ => std::process::exit(3),
+    }
+}
+
 fn main() {
     let argv: Vec<String> = std::env::args().skip(1).collect();
     if !argv.is_empty() {
-        let nt: usize = vh::p(&argv[1]);
-        let k: usize = vh::p(&argv[2]);
         match argv[0].as_str() {
-            // T threads started on a barrier: K draws each, then the treap program
-            "conc" => {
-                let barrier = Arc::new(Barrier::new(nt));
-                let hs: Vec<_> = (0..nt)
-                    .map(|tid| {
-                        let b = barrier.clone();
-                        std::thread::spawn(move || {
-                            b.wait();
-                            let d = draws(k);
-                            // all recorded draws happen before any program draws (a shared generator
-                            // would otherwise interleave them and the first T*K draws would not be ours)
-                            b.wait();
-                            let r = program(tid, k.min(60));
-                            (d, r)
-                        })
-                    })
-                    .collect();
-                for h in hs {
-                    let (d, r) = h.join().unwrap();
-                    println!("L {} # {}", fmt_u32(&d), r.iter().map(|x| x.to_string()).collect::<Vec<_>>().join(" "));
-                }
+            // one thread alone: N draws
+            "solo" => {
+                let n: usize = vh::p(&argv[1]);
+                println!("{}", fmt_prios(&std::thread::spawn(move || solo_draws(n)).join().unwrap()));
             }
-            // one thread alone: T*K draws
-            "solo" => println!("{}", fmt_u32(&std::thread::spawn(move || draws(nt * k)).join().unwrap())),
-            // every treap program alone, one after the other (each after K draws, like in `conc`)
-            "progs" => {
-                for tid in 0..nt {
-                    let r = std::thread::spawn(move || {
-                        let _ = draws(k);
-                        program(tid, k.min(60))
-                    })
-                    .join()
-                    .unwrap();
-                    println!("{}", r.iter().map(|x| x.to_string()).collect::<Vec<_>>().join(" "));
+            "conc" | "progs" => {
+                let par = Par {
+                    nt: vh::p(&argv[2]),
+                    k: vh::p(&argv[3]),
+                    p: vh::p(&argv[4]),
+                    kind: vh::p(&argv[5]),
+                    uneven: argv[6] == "1",
+                };
+                if argv[0] == "conc" {
+                    for r in conc(&argv[1], par) {
+                        println!("{}", r.line());
+                    }
+                } else {
+                    // every program alone, one after the other, each on a fresh thread after its direct draws
+                    let n = if argv[1] == "nested" { 2 * par.nt } else { par.nt };
+                    for pid in 0..n {
+                        let r = std::thread::spawn(move || par.whole(pid)).join().unwrap();
+                        println!("{}", r.line());
+                    }
                 }
             }
             _ => std::process::exit(3),
         }
         return;
     }
-    vh::serve(|t| match t[0] {
-        "spawn" => {
-            let a = vec![t[1].to_string(), t[2].to_string()];
-            let conc = child(&[vec!["conc".to_string()], a.clone()].concat());
-            let solo = child(&[vec!["solo".to_string()], a.clone()].concat());
-            let progs = child(&[vec!["progs".to_string()], a.clone()].concat());
-            let alone: Vec<&str> = progs.lines().map(|l| l.trim()).collect();
-            let mut s = format!("S {}", solo);
-            let mut eq = true;
-            for (i, line) in conc.lines().enumerate() {
-                let (d, r) = line[2..].split_once(" # ").unwrap_or((&line[2..], ""));
-                s += &format!(" ; L {}", d.trim());
-                eq &= alone.get(i).map_or(false, |x| *x == r.trim());
+    vh::serve(|t| {
+        let a: Vec<String> = match t[0] {
+            "spawn" => {
+                let k: usize = vh::p(t[2]);
+                vec!["spawn".into(), t[1].into(), t[2].into(), k.min(60).to_string(), "0".into(), "0".into()]
             }
-            s += &format!(" ; E {}", eq as u8);
-            s
+            "run" => t[1..7].iter().map(|x| x.to_string()).collect(),
+            _ => panic!("unknown op"),
+        };
+        let conc = child(&[vec!["conc".to_string()], a.clone()].concat());
+        // fields of a report line: priorities # program id # results # integrity flag
+        let parse = |line: &str| -> (String, String, String, bool) {
+            let f: Vec<&str> = line[1..].split('#').map(|x| x.trim()).collect();
+            (f[0].to_string(), f[1].to_string(), f[2].to_string(), f[3] == "1")
+        };
+        let reps: Vec<_> = conc.lines().map(parse).collect();
+        let total: usize = reps.iter().map(|r| r.0.split_whitespace().count()).sum();
+        let solo = child(&["solo".to_string(), total.to_string()]);
+        let progs = child(&[vec!["progs".to_string()], a.clone()].concat());
+        let alone: Vec<_> = progs.lines().map(parse).collect();
+        let mut s = format!("S {}", solo);
+        let mut eq = alone.iter().all(|r| r.3);
+        let mut finished = 0;
+        for r in &reps {
+            s += &format!(" ; L {}", r.0);
+            eq &= r.3;
+            if r.1 != "-" {
+                finished += 1;
+                let pid: usize = vh::p(&r.1);
+                eq &= alone.get(pid).map_or(false, |x| x.2 == r.2);
+            }
         }
-        _ => panic!("unknown op"),
+        eq &= finished == alone.len();
+        s += &format!(" ; E {}", eq as u8);
+        s
     });
 }
